@@ -12,9 +12,16 @@
   Core imports only; executable.
 
   Modelling decisions (all representation-only):
-  * `&mut ShrinkingState` is the explicit state `St` = (max_id, lifted_statements).  `used_labels`
-    is threaded through the Rust code but never read or written by this crate, so it is omitted;
+  * `&mut ShrinkingState` is the explicit state `St` = (max_id, used_labels, lifted_statements);
     `data`, `codata`, `current_label` are the read-only `Env`.
+  * `used_labels : &mut HashSet<Identifier>` is only ever searched (`iter().any(..)` on the printed
+    forms) and extended (`insert`), so it is a `List Core.Ident` (membership only, `insert` = `::`);
+    it is initialised in `shrinkProg` with the names of all definitions and threaded through ALL
+    definitions together with `max_id`, exactly like the Rust `&mut`.
+  * the `while` loop of `lift` that draws the label (`drawLabel`) takes fuel `|used_labels| + 1`;
+    running out is the outcome `.error "LABELFUEL"`, which is not a Rust outcome and is proved
+    unreachable (`drawLabel_ne_error` in `Scc/Core2AxCut/Labels.lean`: the candidates `base_k` for
+    distinct `k` have pairwise distinct printed forms, so at most `|used_labels|` draws can fail).
   * `shrink` is not structurally recursive (it recurses on substituted statements), so
     `shrinkStmt` takes fuel; every helper takes the recursive call `rec` as a parameter.
     Running out of fuel is the outcome `.error "FUEL"`; it is not a Rust outcome and
@@ -51,6 +58,9 @@ def panicTypeNotFound : String := "core_lang/syntax/declaration.rs:lookup_type_d
 def panicCannotHappen : String := "core2axcut/statements/cut.rs:FsCut::shrink: cannot happen"
 /-- not a Rust outcome: the model's fuel ran out (proved impossible for `shrinkProg`) -/
 def errFuel : String := "FUEL"
+/-- not a Rust outcome: the fuel of the label-drawing loop of `lift` ran out (proved impossible with
+    the fuel `|used_labels| + 1` that `lift` passes) -/
+def errLabelFuel : String := "LABELFUEL"
 
 /-! ## core_lang: identifiers, id-substitution on focused Core (`SubstVar`) -/
 
@@ -297,6 +307,7 @@ structure Env where
 /-- the mutable part of shrinking.rs: struct ShrinkingState (`lifted` front = head) -/
 structure St where
   maxId : Nat
+  usedLabels : List Core.Ident
   lifted : List AxCut.Def
 
 /-- core_lang names.rs: fn fresh_identifier -/
@@ -373,21 +384,38 @@ def liftFresh : List Core.Binding → St → (List Core.Binding × List (Nat × 
     let ((ctx, subst), st2) := liftFresh bs st1
     (({ b with var := fresh } :: ctx, (b.var.id, fresh) :: subst), st2)
 
+/-- cut.rs: fn lift, the condition of the `while` loop:
+    `state.used_labels.iter().any(|used| used.print_to_string(None) == label.print_to_string(None))` -/
+def labelUsed (used : List Core.Ident) (label : Core.Ident) : Bool :=
+  used.any (fun u => u.print == label.print)
+
+/-- cut.rs: fn lift, `let mut label = fresh_identifier(..); while <labelUsed> { label = fresh_identifier(..) }`:
+    draw identifiers `base_(max_id+1)`, `base_(max_id+2)`, .. until the printed form is not the
+    printed form of a used label.  `fuel` = number of draws allowed. -/
+def drawLabel (base : String) : Nat → St → Except String (Core.Ident × St)
+  | 0, _ => .error errLabelFuel
+  | fuel + 1, st =>
+    let lbl := freshIdentifier st base
+    if labelUsed st.usedLabels lbl.1 then drawLabel base fuel lbl.2
+    else .ok lbl
+
 /-- cut.rs: fn lift -/
 def lift (env : Env) (rec : Rec) (statement : Core.FsStmt) : M AxCut.Stmt := fun st =>
   let typedFreeVars := tfvStmt statement []
   let fresh := liftFresh typedFreeVars st
   let context := fresh.1.1
   let subst := fresh.1.2
-  let lbl := freshIdentifier fresh.2 ("lift_" ++ env.currentLabel ++ "_")
-  let label := lbl.1
-  let context' := shrinkContext env.codata context
-  match rec (substStmt subst statement) lbl.2 with
+  match drawLabel ("lift_" ++ env.currentLabel ++ "_") (fresh.2.usedLabels.length + 1) fresh.2 with
   | .error e => .error e
-  | .ok (body, st3) =>
-    let st4 : St := { st3 with lifted := ⟨shrinkIdentifier label, context', body⟩ :: st3.lifted }
-    let args := shrinkContext env.codata typedFreeVars
-    .ok (.call (shrinkIdentifier label) args, st4)
+  | .ok (label, st1) =>
+    let st2 : St := { st1 with usedLabels := label :: st1.usedLabels }
+    let context' := shrinkContext env.codata context
+    match rec (substStmt subst statement) st2 with
+    | .error e => .error e
+    | .ok (body, st3) =>
+      let st4 : St := { st3 with lifted := ⟨shrinkIdentifier label, context', body⟩ :: st3.lifted }
+      let args := shrinkContext env.codata typedFreeVars
+      .ok (.call (shrinkIdentifier label) args, st4)
 
 /-- the `matches!` part of the sharing condition of shrink_critical_pairs: the statement is an
     `exit`, a `call`, or a cut that will become an `invoke` -/
@@ -638,24 +666,25 @@ def maxXtors : List Core.TypeDecl → Nat
 
 /-- def.rs: fn shrink_def (the body is shrunk first; the definition itself is pushed to the front
     of the lifted statements afterwards) -/
-def shrinkDef (d : Core.FsDef) (data codata : List Core.TypeDecl) (maxId : Nat) :
-    Except String (List AxCut.Def × Nat) :=
+def shrinkDef (d : Core.FsDef) (data codata : List Core.TypeDecl) (usedLabels : List Core.Ident)
+    (maxId : Nat) : Except String (List AxCut.Def × List Core.Ident × Nat) :=
   let env : Env := ⟨data, codata, d.name.name⟩
-  match shrinkStmt env (sizeStmt d.body + 1) d.body ⟨maxId, []⟩ with
+  match shrinkStmt env (sizeStmt d.body + 1) d.body ⟨maxId, usedLabels, []⟩ with
   | .error e => .error e
   | .ok (body, st) =>
-    .ok (⟨shrinkIdentifier d.name, shrinkContext codata d.ctx, body⟩ :: st.lifted, st.maxId)
+    .ok (⟨shrinkIdentifier d.name, shrinkContext codata d.ctx, body⟩ :: st.lifted, st.usedLabels, st.maxId)
 
-/-- program.rs: the `flat_map` over the definitions, threading `max_id` -/
-def shrinkDefs (data codata : List Core.TypeDecl) : List Core.FsDef → Nat → Except String (List AxCut.Def × Nat)
-  | [], maxId => .ok ([], maxId)
-  | d :: ds, maxId =>
-    match shrinkDef d data codata maxId with
+/-- program.rs: the `flat_map` over the definitions, threading `used_labels` and `max_id` -/
+def shrinkDefs (data codata : List Core.TypeDecl) :
+    List Core.FsDef → List Core.Ident → Nat → Except String (List AxCut.Def × List Core.Ident × Nat)
+  | [], used, maxId => .ok ([], used, maxId)
+  | d :: ds, used, maxId =>
+    match shrinkDef d data codata used maxId with
     | .error e => .error e
-    | .ok (defs, maxId1) =>
-      match shrinkDefs data codata ds maxId1 with
+    | .ok (defs, used1, maxId1) =>
+      match shrinkDefs data codata ds used1 maxId1 with
       | .error e => .error e
-      | .ok (rest, maxId2) => .ok (defs ++ rest, maxId2)
+      | .ok (rest, used2, maxId2) => .ok (defs ++ rest, used2, maxId2)
 
 /-- program.rs: fn shrink_prog.  `types` = data types in input order, then `_Cont`, then the
     codata types in input order. -/
@@ -664,9 +693,10 @@ def shrinkProg (p : Core.FsProg) : Except String AxCut.Prog :=
   else if p.codataTypes.any (fun t => t.name == contInt.name) then .error panicContName
   else
     let dataTypes := p.dataTypes ++ [contInt]
-    match shrinkDefs dataTypes p.codataTypes p.defs p.maxId with
+    let usedLabels := p.defs.map (·.name)
+    match shrinkDefs dataTypes p.codataTypes p.defs usedLabels p.maxId with
     | .error e => .error e
-    | .ok (defs, maxId) =>
+    | .ok (defs, _, maxId) =>
       .ok { defs := defs
             types := dataTypes.map (shrinkDeclaration p.codataTypes) ++
                      p.codataTypes.map (shrinkDeclaration p.codataTypes)
@@ -684,6 +714,6 @@ def runLine (dumpS3 : String) : String :=
     | some p =>
       match shrinkProg p with
       | .ok q => "OK " ++ q.toSexp.render
-      | .error e => if e == errFuel then "ERR fuel" else "PANIC " ++ e
+      | .error e => if e == errFuel || e == errLabelFuel then "ERR fuel" else "PANIC " ++ e
 
 end Scc.Core2AxCut
